@@ -256,11 +256,41 @@ func hostileXRef(t *tape.Tape) ([]byte, string) {
 	nsub := tape.Pick(t, "hx.nsub", 1, 2, 16, 128, 512)
 	subSize := tape.Pick(t, "hx.subsize", 100, 1000, 8192, 65536)
 	overlap := t.Bool("hx.overlap", 1, 4)
-	data := []byte{0, 0, 0, 255}
-	for i := 1; i <= 3; i++ {
-		data = append(data, 1, byte(offs[i]>>8), byte(offs[i]), 0)
+	// field widths: the narrow layout, or one wide enough for 32-bit values
+	wide := t.Bool("hx.wide", 1, 2)
+	w2, w3 := 2, 1
+	if wide {
+		w2, w3 = 4, 2
 	}
-	index := "0 4"
+	entry := func(typ byte, f2 uint64, f3 uint64) []byte {
+		out := []byte{typ}
+		for i := w2 - 1; i >= 0; i-- {
+			out = append(out, byte(f2>>(8*uint(i))))
+		}
+		for i := w3 - 1; i >= 0; i-- {
+			out = append(out, byte(f3>>(8*uint(i))))
+		}
+		return out
+	}
+	data := entry(0, 0, 255)
+	for i := 1; i <= 3; i++ {
+		data = append(data, entry(1, uint64(offs[i]), 0)...)
+	}
+	nFirst := 4
+	if t.Bool("hx.boundary", 1, 2) {
+		// a few entries with values at the edges of what the fields can hold:
+		// compressed objects in container 2^24-1, 2^24, 2^24+1, 2^32-1, offsets
+		// beyond the file, unknown entry types
+		for i := 0; i < 1+t.Draw("hx.nboundary", 5); i++ {
+			l := fmt.Sprintf("hx.b%d", i)
+			typ := byte(tape.Pick(t, l+".type", 2, 2, 2, 1, 0, 3, 255))
+			f2 := tape.Pick(t, l+".f2", uint64(1<<24), 1<<24-1, 1<<24+1, 1<<32-1, 1<<31, 3, 0, 65535)
+			f3 := tape.Pick(t, l+".f3", uint64(0), 1, 255, 65535)
+			data = append(data, entry(typ, f2, f3)...)
+			nFirst++
+		}
+	}
+	index := fmt.Sprintf("0 %d", nFirst)
 	next := 1000
 	for i := 0; i < nsub; i++ {
 		index += fmt.Sprintf(" %d %d", next, subSize)
@@ -268,7 +298,7 @@ func hostileXRef(t *tape.Tape) ([]byte, string) {
 			next += subSize + t.Draw("hx.gap", 3)
 		}
 	}
-	data = append(data, make([]byte, 4*nsub*subSize)...)
+	data = append(data, make([]byte, (1+w2+w3)*nsub*subSize)...)
 	if t.Bool("hx.short", 1, 4) {
 		data = data[:16+len(data)/3] // declares more than it delivers
 	}
@@ -277,7 +307,7 @@ func hostileXRef(t *tape.Tape) ([]byte, string) {
 	zw.Write(data)
 	zw.Close()
 	size := next + subSize + 1
-	fmt.Fprintf(&b, "3 0 obj\n<< /Type /XRef /Size %d /W [1 2 1] /Index [%s] /Root 1 0 R /Filter /FlateDecode /Length %d >>\nstream\n", size, index, zb.Len())
+	fmt.Fprintf(&b, "3 0 obj\n<< /Type /XRef /Size %d /W [1 %d %d] /Index [%s] /Root 1 0 R /Filter /FlateDecode /Length %d >>\nstream\n", size, w2, w3, index, zb.Len())
 	b.Write(zb.Bytes())
 	b.WriteString("\nendstream\nendobj\n")
 	fmt.Fprintf(&b, "startxref\n%d\n%%%%EOF\n", offs[3])
